@@ -308,6 +308,35 @@ def run_alt_configs(pid, module, tier):
         ALT_RESULTS.append({"config": name, "violations": vs})
 
 
+def body_hash(b):
+    """hash of a HIR/MIR body that ignores source positions (an edit elsewhere in the file does not change it)"""
+    import hashlib
+
+    def strip_sp(x):
+        if isinstance(x, dict):
+            return {k: strip_sp(v) for k, v in x.items() if k not in ("sp", "fsp")}
+        if isinstance(x, list):
+            return [strip_sp(y) for y in x]
+        return x
+    return hashlib.sha1(json.dumps(strip_sp(b), sort_keys=True, default=repr).encode()).hexdigest()[:16]
+
+
+def control_is_stale(facts, fx):
+    """A recorded control replaces bodies of the tree it was recorded on. When the current tree's version of one of
+    those bodies is no longer the code the control was recorded against (the function was edited, renamed, split),
+    overlaying the old body says nothing about the rule any more: the control is skipped, not failed."""
+    base = fx.get("baseline")
+    if not base:
+        return False
+    for kind in ("hir", "mir"):
+        for crate, hashes in base.get(kind, {}).items():
+            cur = {b["def"]: b for b in (Facts.hir(facts, crate) if kind == "hir" else Facts.mir(facts, crate))}
+            for d, h in hashes.items():
+                if d not in cur or body_hash(cur[d]) != h:
+                    return True
+    return False
+
+
 def run_controls(pid, module, facts, tier):
     """Positive controls: every fixture registered for this property must make its rule fire."""
     global CONTROL_MODE
@@ -320,6 +349,9 @@ def run_controls(pid, module, facts, tier):
         todo = [c for c in todo if c.get("quick", True)]
     for c in todo:
         fx = json.load(open(os.path.join(VERIF, "fixtures", c["fixture"])))
+        if control_is_stale(facts, fx):
+            CONTROL_RESULTS.append({"control": c["id"], "what": c["what"], "expected_rules": c["expect"][pid], "fired": [], "ok": True, "stale": True})
+            continue
         CONTROL_MODE = True
         try:
             fired = {v.rule for v in module.run(Overlay(facts, fx), tier)}
